@@ -13,10 +13,11 @@ from vp import gen as G
 from vp import sim as S
 
 ID = 'C17'
-HISTORIES = ('run', 'run+continue', 'run+stop', 'run,reset,run', 'run(stop),continue')
+HISTORIES = ('run', 'run+continue', 'run+stop', 'run,reset,run', 'run(stop),continue', 'run(stop),continue(stop)',
+             'run,continue(new Solver)')
 RULE = ('configurations (exhaustive): every subset of the optional data on small topologies - spur pair and helical '
         'pair: 8 x 8 subsets of (module, face width, elastic modulus) of both gears; worm pair in both orientations: '
-        'worm reference diameter x wheel (module, face width); motor with / without current data - times 5 '
+        'worm reference diameter x wheel (module, face width); motor with / without current data - times 7 '
         f'histories {HISTORIES}. chains (Hypothesis): random longer valid chains with random histories. After EVERY '
         'operation of the history, for every element and every key of time_variables: the list has exactly '
         'len(powertrain.time) samples, each sample is an instance of the variable\'s kind (pwm: int/float), the last '
@@ -120,6 +121,10 @@ def _history(name, dt=0.01, n=4):
         return [dict(run, stop=True)]
     if name == 'run,reset,run':
         return [dict(run), {'op': 'reset', 'reinit': True}, dict(run)]
+    if name == 'run(stop),continue(stop)':
+        return [dict(run, stop=True), dict(run, stop=True)]
+    if name == 'run,continue(new Solver)':
+        return [dict(run), dict(run, new_solver=True)]
     return [dict(run, stop=True), dict(run)]
 
 
